@@ -55,6 +55,14 @@ class Cost:
                 calls = [x[1].split("::")[-1] for x in walk(t) if x[0] == "call"]
                 allowed = TREE_STEP | SELECT | {"unwrap", "map_while", "iter", "get", "map", "get_index", "deref", "get_unchecked",
                                                 "get_priority_from_position", "next", "into_iter"}
+                # a new private helper returning a Position counts through what IT returns
+                from .core import deep_ret
+                for x in list(walk(t)):
+                    if x[0] == "call" and x[1].split("::")[-1] not in allowed:
+                        callee = self.prog.fn(x[1])
+                        if callee is not None and not callee.exported and callee.key not in self.fx.known_functions() and not callee.cfg.loops:
+                            inner = [y[1].split("::")[-1] for y in walk(deep_ret(self.view, callee)) if y[0] == "call"]
+                            calls = [c2 for c2 in calls if c2 != x[1].split("::")[-1]] + inner
                 if any(c not in allowed for c in calls):
                     ok = False
                 if any(c in TREE_STEP for c in calls):
